@@ -311,6 +311,42 @@ def truthiness_uses(f, name):
 
 
 
+
+# ------------------------------------------------------------------ a class-level container that instances grow in place
+def shared_class_level_containers(ctx, cls):
+    """[(class-body statement, attribute)] a list / dict / set created once in the class body and modified in place through
+    `self.<attr>` by a method of the class family, without every instance getting its own in a constructor: all instances
+    (all schedulers, all experiments of the process) write into the one object"""
+    out = []
+    for st in cls.node.body:
+        tgt = st.target if isinstance(st, ast.AnnAssign) else (st.targets[0] if isinstance(st, ast.Assign) and len(st.targets) == 1 else None)
+        val = getattr(st, "value", None)
+        if not isinstance(tgt, ast.Name) or val is None:
+            continue
+        fresh = isinstance(val, (ast.List, ast.Dict, ast.Set, ast.ListComp, ast.DictComp, ast.SetComp)) or (
+            isinstance(val, ast.Call) and fn_name(val) in ("list", "dict", "set", "deque", "defaultdict", "OrderedDict", "Counter"))
+        if not fresh:
+            continue
+        name = tgt.id
+        mutated = assigned = False
+        for k in ctx.family(cls):
+            for m in k.methods.values():
+                for x in walk_shallow(m.node):
+                    if isinstance(x, ast.Call) and isinstance(x.func, ast.Attribute) and x.func.attr in _MUTATORS and U(x.func.value) == f"self.{name}":
+                        mutated = True
+                    if isinstance(x, (ast.Assign, ast.AugAssign, ast.Delete)):
+                        for t in (x.targets if not isinstance(x, ast.AugAssign) else [x.target]):
+                            if isinstance(t, ast.Subscript) and U(t.value) == f"self.{name}":
+                                mutated = True
+                            if isinstance(x, ast.AugAssign) and U(t) == f"self.{name}":
+                                mutated = True
+                            if isinstance(x, ast.Assign) and U(t) == f"self.{name}" and m.name in ("__init__", "__setstate__") or (
+                                    isinstance(x, ast.Assign) and U(t) == f"self.{name}" and m.name.startswith("_create_internal")):
+                                assigned = True
+        if mutated and not assigned:
+            out.append((st, name))
+    return out
+
 # ------------------------------------------------------------------ an option taken out of **kwargs before they are forwarded
 def consumed_before_forwarding(f):
     """[(pop node, key, forwarding call)] `kwargs.pop("k")` / `del kwargs["k"]` followed by a call that forwards `**kwargs` without
@@ -1036,6 +1072,11 @@ def cross_cutting(ctx, rep, prop):
             rep.bad("X", "guarded_by", f"{f.short}: a looked-up number is defaulted on absence, not on falsity", f, u,
                     f"`{U(u)[:70]}` replaces a stored 0 by the default: the lookup needs `.get(key, default)` / an `is None` test")
     for c_ in sorted({f.cls for f in funcs if f.cls is not None}, key=lambda c_: c_.qualname if hasattr(c_, "qualname") else c_.name):
+        for st_, attr_ in shared_class_level_containers(ctx, c_):
+            bad += 1
+            rep.bad("X", "aliasing", f"{c_.name}.{attr_}: every instance has its own container", c_, st_,
+                    f"`{U(st_)[:60]}` creates one container in the class body; methods modify it in place through self.{attr_} and no constructor gives the "
+                    "instance its own: all instances of the process share it (what one experiment leaves behind is acted on by the next)")
         for m_, call_ in bypassed_base_calls(ctx, c_):
             bad += 1
             rep.bad("X", "must_follow", f"{c_.name}.{m_.name}: the base implementation it calls unconditionally is reached on every path", m_, call_,
